@@ -107,6 +107,12 @@ def make_cases(ctx, n):
                 kw[key][rng.randrange(len(kw[key]))] = 0.0 if key != "dimension" else kw[key][0]  # dimension must stay > 0
             else:
                 kw[key] = 0.0
+        elif variant == "zero-size" and cls in ("Tetrahedron", "Triangle", "Polyline"):
+            # zero volume / area / length: the last vertex moved into the span of the others (flat tetrahedron, needle triangle,
+            # polyline with a repeated vertex)
+            v = np.array(kw["vertices"], float)
+            v[-1] = v[0] + 0.25 * (v[1] - v[0]) + (0.5 * (v[2] - v[0]) if cls == "Tetrahedron" else 0.0) if cls != "Polyline" else v[-2]
+            kw["vertices"] = v
         elif variant in ("huge", "tiny") and cls != "TriangularMesh":
             s = 1e9 if variant == "huge" else 1e-9
             for k in ("dimension", "diameter", "vertices"):
